@@ -3,7 +3,7 @@ import PyxModel.OSet
 import PyxModel.OSetPtr
 
 /-! driver for `(oset op…)` and `(osetp op…)` command lines (C17) -/
-namespace Pyx.Driver.OSetD
+namespace Pyx.Driver.C17
 open Pyx Pyx.Sexp
 
 def nats (xs : List Sexp) : List Nat := xs.filterMap asNat?
@@ -75,4 +75,4 @@ def handle : List Sexp → Option Sexp
   | sym "osetp" :: ops => some (prun ops)
   | _ => none
 
-end Pyx.Driver.OSetD
+end Pyx.Driver.C17
